@@ -708,6 +708,9 @@ func (w *worker[T, JobType]) Restart() error {
 		return ErrNotRunningWorker
 	}
 
+	// the idle-worker reaper of the previous run ends here: start() below begins a new one, and
+	// only Stop used to end them, so every Restart of a live worker left one more behind
+	w.stopTickers()
 	w.closeChannels()
 
 	w.mx.Lock()
